@@ -30,7 +30,7 @@ func (p *verifCountProcessor) Process(in, out *FProtocol) error {
 	p.mu.Unlock()
 	verifYield("handler-running") // the handler takes an arbitrary time
 	if p.slow {
-		verifAdvanceClock(10 * time.Second)
+		verifRealSleep(10 * time.Second) // a handler that takes 10 s (virtual time): the worker is blocked meanwhile
 	}
 	_, err := out.Transport().Write([]byte{b[0]})
 	return err
